@@ -257,13 +257,11 @@ Fixpoint cty (G : tenv) (e : cexpr) : option sty :=
           let G' := bind_var G x te in
           match m, step with
           | MAll, ECall2 FAnd _ body | MExists, ECall2 FOr _ body | MExistsOne, ECall3 FTernary body _ _ =>
-              if mentions acc body then None else
+              (* the body cannot refer to the accumulator: it is not a typed variable; a nested macro binds its own *)
               match cty G' body with Some SBool => Some SBool | _ => None end
           | MFilter, ECall3 FTernary body _ _ =>
-              if mentions acc body then None else
               match cty G' body with Some SBool => Some SIfaces | _ => None end
           | MMap, ECall2 FAdd _ (EList [t]) =>
-              if mentions acc t then None else
               match cty G' t with
               | Some (SInt _ | SF64 | SStr | SBool | SKStr _) => Some SIfaces
               | Some (SKInt _ z) => if in_kind IInt z then Some SIfaces else None
